@@ -53,3 +53,11 @@ unsafe fn raw_waker_drop(_data: *const ()) {
 
 const RAW_WAKER_VTABLE: RawWakerVTable =
     RawWakerVTable::new(raw_waker_clone, raw_waker_wake, raw_waker_wake_by_ref, raw_waker_drop);
+
+/// What invoking the waker of `task_id` does, callable directly (the out-of-tree verification
+/// harnesses replace the function-pointer dispatch of `std::task::Waker` by direct calls).
+#[cfg(feature = "verif-hooks")]
+pub fn verif_wake(task_id: TaskId) {
+    // Safety: see above; the data pointer is just the task id
+    unsafe { raw_waker_wake(task_id.0 as *const ()) }
+}
